@@ -5,9 +5,12 @@ Line-protocol driver for C20 (SRTM30).  Rationals cross the pipe as `num/den` (e
   rows  latMin latMax                 -> "iMax iMin"            (nativeRows)
   cols  lonMin lonMax                 -> "jMin jMax"            (nativeCols)
   tiles latMin lonMin latMax lonMax   -> tile names in order ("-" if none)     (getTiles)
-  elev  latMin lonMin latMax lonMax   -> "ok|lats|lons|tiles|E" : lats/lons as num/den lists,
+  elev  latMin lonMin latMax lonMax [c1,c2,..]
+                                      -> "ok|lats|lons|tiles|E|downloads" : lats/lons as num/den lists,
                                          tiles = names of getTiles of the block, E row-major ints
-                                         (tile content = synthPix);  or "value-error"
+                                         (tile content = synthPix), downloads = names fetched by
+                                         elevationC on the cache c1,c2,.. (tile ids; default empty);
+                                         or "value-error"
   tgrid k                             -> "eq" if nativeGrids (bounds of tile k) = (tileLats, tileLons)
                                          followed by first/last lat and lon of the tile grid
   cache c1,c2,..|r1,r2,...            -> downloads in order ("-" if none) | final cache sorted
@@ -49,10 +52,11 @@ def step (line : String) : String :=
     match parseRat a, parseRat b, parseRat c, parseRat d with
     | some a, some b, some c, some d => showList ((getTiles ⟨a, b, c, d⟩).map nameOf)
     | _, _, _, _ => "bad-op"
-  | ["elev", a, b, c, d] =>
-    match parseRat a, parseRat b, parseRat c, parseRat d with
-    | some a, some b, some c, some d =>
-      match elevation synthPix ⟨a, b, c, d⟩ with
+  | "elev" :: a :: b :: c :: d :: rest =>
+    match parseRat a, parseRat b, parseRat c, parseRat d, parseNats ("".intercalate rest) with
+    | some a, some b, some c, some d, some cache =>
+      let res := elevationC cache synthPix ⟨a, b, c, d⟩
+      match res.1 with
       | .error _ => "value-error"
       | .ok (lats, lons, E) =>
         -- the tiles of the block (recomputed the way `elevation` does) for comparison
@@ -61,8 +65,9 @@ def step (line : String) : String :=
             (getTiles ⟨la - (1/2) * dlat, lo - (1/2) * dlon, lb + (1/2) * dlat, lp + (1/2) * dlon⟩).map nameOf
           | _, _, _, _ => []
         "ok|" ++ showList (lats.map showRat) ++ "|" ++ showList (lons.map showRat) ++ "|" ++
-          showList tl ++ "|" ++ showList (E.toList.map toString)
-    | _, _, _, _ => "bad-op"
+          showList tl ++ "|" ++ showList (E.toList.map toString) ++ "|" ++
+          showList (res.2.2.map (fun k => tileNames.getD k "?"))
+    | _, _, _, _, _ => "bad-op"
   | ["tgrid", k] =>
     match k.toNat? with
     | some k =>
